@@ -277,8 +277,9 @@ C03RespCauses(n, r) ==
 ---------------------------------------------------------------------------
 (* C11 -- refresh keeps the session current or ends it *)
 
+\* C11 quantifies over histories: checks that overlap another check are judged by C01/C02/C09 only
 C11IdpCauses(n, e) ==
-  IF e.grant # "refresh_token" THEN {}
+  IF e.grant # "refresh_token" \/ chk[n].ovl THEN {}
   ELSE
     (IF Len(TokReads(n)) = 0 THEN {"refresh-without-token-read"}
      ELSE (IF e.rt # TokReads(n)[1].e.res.rt THEN {"refresh-token-not-the-stored-one"} ELSE {}))
@@ -293,7 +294,9 @@ ExpectedMerge(old, iss, t) ==
 
 C11RespCauses(n, r) ==
   LET rf == SelectSeq(IdpEvs(n), LAMBDA x : x.e.grant = "refresh_token")
-  IN IF Len(rf) = 0 \/ Len(TokReads(n)) = 0 THEN {}
+  IN IF Len(TokReads(n)) > 0 /\ (~Has(bound, Req(n).cookie) \/ TokReads(n)[1].e.res.id \notin bound[Req(n).cookie])
+     THEN {"later-check-sees-tokens-never-stored"}
+     ELSE IF Len(rf) = 0 \/ Len(TokReads(n)) = 0 \/ chk[n].ovl THEN {}
      ELSE
       LET e   == rf[1].e
           old == TokReads(n)[1].e.res
@@ -367,7 +370,8 @@ C15RespCauses(n, r) ==
 (* C18 -- filter isolation *)
 C18RespCauses(n, r) ==
   IF Outcome(r) = "ok" /\ Has(logins, Req(n).cookie) /\ logins[Req(n).cookie].f # r.f
-  THEN {"session-of-" \o "another-filter-honoured:" \o Req(n).cookieVia} ELSE {}
+  THEN {"session-of-another-filter-honoured:" \o Req(n).cookieVia \o
+        (IF flt[logins[Req(n).cookie].f].store = flt[r.f].store THEN "@shared-store" ELSE "@separate-stores")} ELSE {}
 
 C18IdpCauses(n, e) ==
   (IF e.endpoint # flt[e.f].idp THEN {"token-endpoint-of-another-filter"} ELSE {})
@@ -385,7 +389,12 @@ RespViol(n, r) ==
        Tag("C01", "OkJustified", C01Causes(n, r), n)
   \cup Tag("C03", "NoRelogin", C03RespCauses(n, r), n)
   \cup Tag("C10", "NotDroppedEarly", C10DropCauses(n, r), n)
-  \cup (IF Cardinality(DOMAIN flt) > 1 THEN Tag("C18", "OwnTimeouts", C10RespCauses(n, r), n) ELSE {})
+  \cup (IF Cardinality(DOMAIN flt) > 1
+        THEN Tag("C18", "OwnTimeouts", C10RespCauses(n, r), n)
+             \* with several filters, each filter's own header names, cookie name and end-session endpoint govern its answers
+             \cup Tag("C18", "OwnSettings", C02RespCauses(n, r) \cup C05RespCauses(n, r) \cup C13RespCauses(n, r)
+                                            \cup {c \in C09RespCauses(n, r) : c \in {"logout-answer-not-end-session-redirect", "logout-does-not-expire-cookie"}}, n)
+        ELSE {})
   \cup Tag("C02", "ForwardedEqBound", C02RespCauses(n, r), n)
   \cup Tag("C05", "CookieAndSessionId", C05RespCauses(n, r), n)
   \cup Tag("C09", "LogoutFinal", C09RespCauses(n, r), n)
@@ -443,7 +452,8 @@ Skip ==
 
 ReqEv ==
   /\ E.ev = "req"
-  /\ chk' = Put(chk, E.n, [req |-> E, evs |-> <<>>])
+  \* a check that shares any part of its lifetime with another check is marked as overlapped (ovl)
+  /\ chk' = Put([k \in DOMAIN chk |-> [chk[k] EXCEPT !.ovl = TRUE]], E.n, [req |-> E, evs |-> <<>>, ovl |-> DOMAIN chk # {}])
   /\ presented' = IF E.cookie = "none" THEN presented ELSE presented \cup {E.cookie}
   /\ UNCHANGED <<now, sc, flt, logins, consumed, dead, codes, idtok, rtl, latest, lastUse, stored, gone, bound, attok, br, viol, drift, fired>>
 
